@@ -21,7 +21,7 @@ RULE = (
     "Non-trivial = distinct (operation, arguments) whose result differs from the receiver."
 )
 ASSUMPTIONS = ["is_simple for n <= 2 follows the definition 'no proper interval of length 2..n-1'"]
-REQUIRED = ["laws.huge_shift_amounts", "laws.many_factors", "calls.Perm.direct_sum", "calls.Perm.skew_sum", "calls.Perm.compose", "calls.Perm.insert", "calls.Perm.remove",
+REQUIRED = ["receivers.user_subclasses", "laws.huge_shift_amounts", "laws.many_factors", "calls.Perm.direct_sum", "calls.Perm.skew_sum", "calls.Perm.compose", "calls.Perm.insert", "calls.Perm.remove",
             "calls.Perm.remove_element", "calls.Perm.inflate", "calls.Perm.shift_right", "calls.Perm.shift_up",
             "calls.Perm.sum_decomposition", "calls.Perm.skew_decomposition", "calls.Perm.block_decomposition",
             "calls.Perm.is_simple", "calls.Perm.children", "calls.Perm.coveredby", "calls.Perm.contract_bonds",
@@ -41,7 +41,7 @@ def report(check, args, detail):
 
 
 def valid(res):
-    return type(res) is Perm and sorted(res) == list(range(len(res)))
+    return isinstance(res, Perm) and sorted(res) == list(range(len(res)))
 
 
 # ---- icontract conditions (named functions, explicit error=) --------------------------------------------------
@@ -274,6 +274,44 @@ def chk_op(ctx, label, p, args, kwargs):
         pass
 
 
+class OneBased(Perm):
+    """user subclass whose constructor reads 1-based values (the library's own results are plain Perm objects)"""
+
+    def __new__(cls, values=()):
+        return super().__new__(cls, [v - 1 for v in values])
+
+    def __init__(self, values=()):
+        super().__init__([v - 1 for v in values])
+
+
+class Tagged(Perm):
+    """user subclass with a mandatory extra constructor argument"""
+
+    def __new__(cls, values, tag):
+        return super().__new__(cls, values)
+
+    def __init__(self, values, tag):
+        super().__init__(values)
+        self.tag = tag
+
+
+def chk_subclass_receivers(ctx, p):
+    """the operations on instances of user subclasses (same value): every call is judged by the contracts like any other"""
+    n = len(p)
+    for S in (OneBased([v + 1 for v in p]), Tagged(p, "x")):
+        if tuple(S) != tuple(p):
+            return
+        for k in (0, 1, n - 1 if n else 0, -1, n + 2):
+            S.shift_right(k), S.shift_left(k), S.shift_up(k), S.shift_down(k)
+        S.inverse(), S.reverse(), S.complement(), S.rotate(), S.flip_antidiagonal()
+        S.direct_sum(S), S.skew_sum(Perm(p)), S.compose(Perm(p)), Perm(p).compose(S)
+        S.insert(0, 0), S.insert()
+        if n:
+            S.remove(0), S.remove_element(n - 1)
+        S.sum_decomposition(), S.skew_decomposition(), S.contract_bonds(), S.monotone_quotient(), S.children(), S.coveredby()
+        ctx.count("receivers.user_subclasses")
+
+
 def chk_unary(ctx, p):
     """all argument values of the single-permutation operations + their laws"""
     P = Perm(p)
@@ -305,6 +343,8 @@ def chk_unary(ctx, p):
             report("unary", [p], f"shift laws fail for amount {k}")
     P.shift_right()
     P.shift_up()
+    if n <= 4 or ctx.rng.random() < 0.1:
+        chk_subclass_receivers(ctx, p)
     # shift amounts of any size act cyclically (amounts around the machine-word boundaries and far beyond)
     for big in (2 ** 31, -2 ** 31 - 1, 2 ** 63 - 1, 2 ** 63, -2 ** 63, -2 ** 63 - 1, 2 ** 64 + 1, 10 ** 30 + 7, -(10 ** 30) - 7):
         a, c = P.shift_right(big), P.shift_up(big)
@@ -442,7 +482,7 @@ def chk_inflate(ctx, p, comps):
             report("inflate", [p, comps], "inflating 01 / 10 is not the direct / skew sum")
 
 
-CHECKS = {"many": chk_many_factors, "op": chk_op, "unary": chk_unary, "binary": chk_binary, "inflate": chk_inflate}
+CHECKS = {"subclass": chk_subclass_receivers, "many": chk_many_factors, "op": chk_op, "unary": chk_unary, "binary": chk_binary, "inflate": chk_inflate}
 
 
 def plan(tier, seed):
